@@ -114,6 +114,13 @@ func (c *SpecCtx) resolveType(te *TypeExpr) types.Type {
 		return types.NewPointer(c.resolveType(te.Elem))
 	case "slice":
 		return types.NewSlice(c.resolveType(te.Elem))
+	case "func":
+		var ps []*types.Var
+		for _, p := range te.Params {
+			ps = append(ps, types.NewVar(0, nil, "", c.resolveType(p)))
+		}
+		res := types.NewTuple(types.NewVar(0, nil, "", c.resolveType(te.Elem)))
+		return types.NewSignatureType(nil, nil, nil, types.NewTuple(ps...), res, false)
 	}
 	if te.Pkg != "" {
 		if p := c.importedPkg(te.Pkg); p != nil {
@@ -962,7 +969,7 @@ func (c *SpecCtx) evalCall(e *ECall) Val {
 					ts = append(ts, av.T)
 				}
 				rt := sig.Results().At(0).Type()
-				fn := fmt.Sprintf("fapply.%s.%d", typeKey(sig), 0)
+				fn := fmt.Sprintf("fapply.%s.%d", sigKey(sig), 0)
 				return Val{T: enc.uf(fn, sorts, enc.sortOf(rt), ts...), Typ: rt}
 			}
 		}
